@@ -1,6 +1,6 @@
 SPECIFICATION Spec
 CONSTANTS
   Deviations = {}
-  Classes = {"plain", "param/alias+default", "error/api-level-user-type", "views/recursive-result-type", "payload/whole-in-header"}
+  Classes = {"plain", "param/alias+default", "error/api-level-user-type", "views/recursive-result-type", "payload/whole-in-header", "map/key-not-json"}
 INVARIANTS AcceptedNeverFailsLater RejectedStops StagesInOrder
 CHECK_DEADLOCK FALSE
